@@ -21,7 +21,7 @@
 #error "compile with -DPROP=17 or 18"
 #endif
 
-enum { K_SCEN = VC_USER, K_POINTS, K_MAXPOINTS, K_SHARED_ADDRS, K_SHARED_WRITTEN, K_SELFTEST_EXEC, K_WATCH_CALLS, K_TREES, K_TREES_WITH_TAG, K_OPS, K_BOUND0, K_BOUND1, K_BOUND2, K_BOUND3, K_REDUCED, K_UNREDUCED, K_CAPPED, K_SWEEP, K_REFUSED_OPS, K_TREES_WITH_HISTORY, K_HANDOVER, K_REFUSED_RUNS, K_DEEP_TREES };
+enum { K_SCEN = VC_USER, K_POINTS, K_MAXPOINTS, K_SHARED_ADDRS, K_SHARED_WRITTEN, K_SELFTEST_EXEC, K_WATCH_CALLS, K_TREES, K_TREES_WITH_TAG, K_OPS, K_BOUND0, K_BOUND1, K_BOUND2, K_BOUND3, K_REDUCED, K_UNREDUCED, K_CAPPED, K_SWEEP, K_REFUSED_OPS, K_TREES_WITH_HISTORY, K_HANDOVER, K_REFUSED_RUNS, K_DEEP_TREES, K_TAG_SWEEP };
 
 static uint64_t fnv(uint64_t h, const void* p, size_t n) {
   const unsigned char* b = p;
@@ -712,6 +712,33 @@ static void sweep_input(const uint8_t* b, size_t n) {
   struct vs_exec e = vs_watch_end();
   sweep_judge(&e, "decode/describe/serialize/copy/release", b, n);
 }
+/* tag numbers with a registered meaning are where a library grows special cases (date/time, bignum, embedded CBOR, URI ...): every tag number
+ * 0..255 and the first numbers of the wider heads, around every single head of Sigma */
+static void sweep_tags(void) {
+  for (unsigned tn = 0; tn < 256 + 6; tn++) {
+    uint8_t in[32];
+    size_t hl;
+    if (tn < 24) { in[0] = (uint8_t)(0xc0 + tn); hl = 1; }
+    else if (tn < 256) { in[0] = 0xd8; in[1] = (uint8_t)tn; hl = 2; }
+    else {
+      static const uint8_t WIDE[6][9] = {{0xd9, 0x01, 0x00}, {0xd9, 0xd9, 0xf7}, {0xda, 0x00, 0x01, 0x00, 0x00}, {0xdb, 0, 0, 0, 1, 0, 0, 0, 0}, {0xd9, 0x00, 0x01}, {0xdb, 0, 0, 0, 0, 0, 0, 0, 1}};
+      static const uint8_t WL[6] = {3, 3, 5, 9, 3, 9};
+      memcpy(in, WIDE[tn - 256], WL[tn - 256]);
+      hl = WL[tn - 256];
+    }
+    for (size_t k = 0; k < VF_SIGMA.ntoks; k++) {
+      if (hl + VF_SIGMA.toks[k].n + 2 > sizeof in) continue;
+      memcpy(in + hl, VF_SIGMA.toks[k].b, VF_SIGMA.toks[k].n);
+      size_t n = hl + VF_SIGMA.toks[k].n;
+      in[n] = 0x00;     /* one element, should the head have opened a container */
+      in[n + 1] = 0xff; /* and a break, should it be an indefinite one */
+      sweep_input(in, n);
+      sweep_input(in, n + 1);
+      sweep_input(in, n + 2);
+      vf_cnt(K_TAG_SWEEP, 3);
+    }
+  }
+}
 static void sweep_seq_cb(const vf_seq* s, void* ctx) {
   (void)ctx;
   uint8_t buf[12 * 16];
@@ -898,7 +925,9 @@ static void unit(uint64_t u) {
   if (u < vf_corpus_count()) { size_t n; const uint8_t* b = vf_corpus_item(u, &n, NULL); if (n < 20000) sweep_input(b, n); return; }
   u -= vf_corpus_count();
   if (u < sweep_con_units) { sweep_con_unit(u); return; }
-  sweep_misc();
+  u -= sweep_con_units;
+  if (u == 0) { sweep_misc(); return; }
+  sweep_tags();
 #else
 #ifndef VF_MPROTECT
   if (u == 0) { selftest_unit(); return; }
@@ -917,7 +946,7 @@ static void unit(uint64_t u) {
 }
 static uint64_t units(void) {
 #if PROP == 17
-  return 2 + nscen + NHANDOVER + sweep_dfs_units + vf_corpus_count() + sweep_con_units + 1;
+  return 2 + nscen + NHANDOVER + sweep_dfs_units + vf_corpus_count() + sweep_con_units + 2;
 #else
 #ifdef VF_MPROTECT
   return dfs_units + con_units + vf_corpus_count();
@@ -1004,7 +1033,7 @@ struct vf_check vf_the_check = {
             "store to a global/static object, no access to another thread's private memory, per-thread result digest = digest of the thread running alone. "
             "(2b) 12 hand-over scenarios: an original, its cbor_copy, a copy of the copy / a re-load of its serialization are created before the threads start and each given to one thread, which describes, "
             "serializes, copies and releases it (2 inputs with zero-length chunks, nested tags, empty containers; 2 and 3 threads): same explorations, same oracles. "
-            "(3) Global-state sweep, no scheduling needed: every input of the pushdown DFS over Sigma (4/5 heads), every boundary-corpus item, every 8th (every) constructed tree and all builders / "
+            "(3) Global-state sweep, no scheduling needed: every input of the pushdown DFS over Sigma (4/5 heads), every boundary-corpus item, every tag number 0..255 (and six wider ones) in front of every head of Sigma, every 8th (every) constructed tree and all builders / "
             "encoders on the structured value sets are run through the whole client pipeline in the trace build; any store of library code to memory that is neither an allocator arena nor the "
             "caller's stack is hidden mutable global state",
     .bounds = {"pairs + triples; reduced to bound 2; unreduced to bound 2 (pairs) / 1 (triples)", "pairs + triples; reduced to bound 2; unreduced to bound 3 (pairs) / 2 (triples), capped at 4 000 000 schedules per scenario"},
@@ -1023,7 +1052,7 @@ struct vf_check vf_the_check = {
                     "the library uses no locks or atomics, so two accesses of different threads to overlapping bytes with at least one store are a data race by definition",
                     "explorer self-test: an unsynchronised x++ control must show a detected race and a lost update at preemption bound 1, otherwise the check reports itself broken"},
     .counters = {[VC_EVAL] = "schedules_or_operations_executed", [VC_DISTINCT] = "distinct_scenarios_or_trees", [VC_TRANS] = "scheduling_points_taken", [VC_TRACES] = "executed_on_implementation",
-                 [K_SCEN] = "scenarios", [K_HANDOVER] = "hand_over_scenarios", [K_POINTS] = "scheduling_points", [K_MAXPOINTS] = "sum_over_workers_of_max_points_per_schedule", [K_SHARED_ADDRS] = "shared_addresses_seen_summed_over_explorations",
+                 [K_SCEN] = "scenarios", [K_HANDOVER] = "hand_over_scenarios", [K_TAG_SWEEP] = "tag_number_sweep_inputs", [K_POINTS] = "scheduling_points", [K_MAXPOINTS] = "sum_over_workers_of_max_points_per_schedule", [K_SHARED_ADDRS] = "shared_addresses_seen_summed_over_explorations",
                  [K_SHARED_WRITTEN] = "shared_addresses_written_summed_over_explorations", [K_SELFTEST_EXEC] = "selftest_schedules", [K_WATCH_CALLS] = "store_watched_decoder_calls",
                  [K_TREES] = "trees_frozen", [K_TREES_WITH_TAG] = "trees_containing_a_tag", [K_REFUSED_RUNS] = "read_only_operations_run_with_their_allocator_requests_refused", [K_DEEP_TREES] = "boundary_corpus_trees_frozen", [K_TREES_WITH_HISTORY] = "trees_frozen_again_after_refused_operations", [K_REFUSED_OPS] = "refused_operations_applied_before_freezing", [K_OPS] = "read_only_operations_on_frozen_trees", [K_BOUND0] = "explorations_completed_at_bound_0",
                  [K_BOUND1] = "explorations_completed_at_bound_1", [K_BOUND2] = "explorations_completed_at_bound_2", [K_BOUND3] = "explorations_completed_at_bound_3",
